@@ -32,6 +32,13 @@ pub fn strings(width: usize) -> Vec<(String, String)> {
             out.push((format!("mixed lead{lead} x{n}"), s));
         }
     }
+    // white space and control characters are ordinary text: nothing may trim or normalise them
+    for t in [" ", "  ", " a", "a ", " a ", "a  b", "\t", "a\tb", "a\u{7f}", "\u{1}x", "x\r\n", "~{}[]"] {
+        out.push((format!("ascii-odd {t:?}"), t.to_string()));
+        if width > 12 {
+            out.push((format!("ascii-odd padded {t:?}"), format!("{}{t}", "p".repeat(width - 1 - t.len().min(width - 1)))));
+        }
+    }
     for n in [0usize, 1, 2, 3, 5, width.saturating_sub(1), width, width + 1] {
         // embedded NUL
         let mut s = "b".repeat(n);
